@@ -11,6 +11,7 @@ from __future__ import annotations
 import contextlib
 import inspect
 import logging
+import sys
 import threading
 from abc import ABC, abstractmethod
 from collections.abc import Callable, Iterable, Sized
@@ -1018,6 +1019,31 @@ class AbstractExecutionTracer(ABC):  # noqa: PLR0904
         """
 
 
+def _positive_distance(compute: Callable[[], float]) -> float:
+    """Evaluate a numeric distance for operands whose comparison does not hold.
+
+    Such a distance must be positive and must not be NaN. Operands that do not fit
+    into a float, NaN operands, and differences below the float resolution (e.g.,
+    ``2**53 + 1`` and ``2**53``) are mapped to a usable positive distance.
+
+    Args:
+        compute: computes the raw distance
+
+    Returns:
+        a positive distance that is not NaN
+    """
+    try:
+        distance = compute()
+    except (ArithmeticError, TypeError, ValueError):
+        return inf
+    if distance != distance:  # noqa: PLR0124
+        # NaN
+        return inf
+    if distance <= 0.0:
+        return sys.float_info.min
+    return distance
+
+
 def _eq(val1, val2) -> float:
     """Distance computation for '=='.
 
@@ -1034,7 +1060,7 @@ def _eq(val1, val2) -> float:
     except TypeError:
         pass
     if is_numeric(val1) and is_numeric(val2):
-        return float(abs(val1 - val2))
+        return _positive_distance(lambda: float(abs(val1 - val2)))
     if is_string(val1) and is_string(val2):
         return string_distance(val1, val2)
     if is_bytes(val1) and is_bytes(val2):
@@ -1070,7 +1096,7 @@ def _lt(val1, val2) -> float:
     if val1 < val2:
         return 0.0
     if is_numeric(val1) and is_numeric(val2):
-        return (float(val1) - float(val2)) + 1.0
+        return _positive_distance(lambda: (float(val1) - float(val2)) + 1.0)
     if is_string(val1) and is_string(val2):
         return string_lt_distance(val1, val2)
     if is_bytes(val1) and is_bytes(val2):
@@ -1091,7 +1117,7 @@ def _le(val1, val2) -> float:
     if val1 <= val2:
         return 0.0
     if is_numeric(val1) and is_numeric(val2):
-        return float(val1) - float(val2)
+        return _positive_distance(lambda: float(val1) - float(val2))
     if is_string(val1) and is_string(val2):
         return string_le_distance(val1, val2)
     if is_bytes(val1) and is_bytes(val2):
@@ -1362,6 +1388,15 @@ class ExecutionTracer(AbstractExecutionTracer):  # noqa: PLR0904
                     )
                 case _:
                     raise AssertionError("Unknown compare op")
+            if distance_true != 0.0 and distance_false != 0.0:
+                # Neither the operator nor its complement holds, i.e., the operands are
+                # unordered (NaN, partially ordered values such as sets, ...):
+                # the interpreter takes the false branch.
+                distance_false = 0.0
+            elif distance_true == 0.0 and distance_false == 0.0:
+                # Both the operator and its complement claim to hold (inconsistent
+                # user-defined operators): the interpreter takes the true branch.
+                distance_false = 1.0
             self._update_metrics(distance_false, distance_true, predicate)
 
     @_early_return
